@@ -37,7 +37,7 @@ ENTRY, COUNTER, MAPLOG, INFOCLS = ('entry',), ('counter',), ('maplog',), ('infoc
 K = 'I18n.PyFmt.Py'
 T = TypeSys(simple={'entry': 'PyFmt.Entry', 'counter': 'List Char', 'maplog': 'List (List Char × PyFmt.Entry)', 'infocls': 'Unit', 'selfobj': 'Unit'},
             recs={'FormatString': 'PyFmt.St'})
-STYLE = ObjStyle('PyFmt.PErr', 'PyKit.tryExcept', 'PyKit.forRange')
+STYLE = ObjStyle('PyFmt.PErr', 'PyKit.tryExcept', 'PyKit.forRange', binds=True)
 
 FIELDS = {'_seq_arguments': ('seq', LIST(ENTRY)), '_map_arguments': ('map', MAPLOG)}
 INFO_ATTRS = {'flags': 'flagChars', 'lengths': 'lengthChars', 'oct_cvt': 'octCvt', 'hex_cvt': 'hexCvt', 'int_cvt': 'intCvt', 'float_cvt': 'floatCvt',
